@@ -22,8 +22,8 @@ from props import solver_common as sc
 ID = 'C04'
 PROPS_FILE = 'Props/C04.v'
 MODEL_FILES = ['Solver/Solver.v', 'Solver/SolverF.v', 'Eval/Eval.v', 'Eval/EvalF.v', 'Fortran/FSolve.v', 'Solver/SolveAll.v',
-               'Eval/EvalSolveAll.v', 'Eval/EvalK2.v']
-PREAMBLE2 = em.PREAMBLE + 'Require Fsic.Fortran.FSolve.\nRequire Import Fsic.Eval.EvalK2.\n'
+               'Eval/EvalSolveAll.v', 'Eval/EvalK2.v', 'Linker/Linker.v', 'Eval/EvalLinker.v', 'Eval/EvalK3.v']
+PREAMBLE2 = em.PREAMBLE + 'Require Fsic.Fortran.FSolve Fsic.Linker.Linker.\nRequire Import Fsic.Eval.EvalK2 Fsic.Eval.EvalK3.\n'
 K_NAME = ('K_access (Eval.eval_pass / Eval.solve_seq_M on PrimFloat vs the real generated _evaluate, solve_t and solve of '
           'parser-built models: values, status, iterations, outcome, hook events, access sequence of every pass; second engine: '
           'Fortran/FSolve.w_solve_t vs the real FortranEngine.solve_t over gfortran-compiled code on every call that ends before '
@@ -35,6 +35,10 @@ RULE = ('C01-grammar scripts (1-3 equations, lags/leads <= 3, parameters, errors
         'pre-existing NaN/inf, all error modes, (c) solve() for every start/end choice incl. defaults (model side: the entry-point '
         'model SolveAll.solve_M incl. iter_periods), (d) the Fortran engine (gfortran-compiled) for solve_t at every t in both '
         'spellings and solve(): oracle on all, K on the calls that end before the compiled loop. '
+        'Label entry points: solve_period(label) at every position and for an unknown label, solve(start=, end=) by labels, on list / '
+        'tuple / range / NumPy-array / pandas-Index spans with integer labels (model side: SolveAllSpan.locate_span). Lags / leads up '
+        'to 11 / 10. Linkers: BaseLinker.solve_t over two instances of the class at every t in both spellings, every selection of submodels '
+        '(oracle: rejections change nothing, frame per submodel, reads in span; K: Linker.linker_solve_t_M with the generated pass). '
         'Histories: 3-6 steps over up to three instances of one class created at different moments — solve_t calls with '
         'independent options (offsets in / just outside the span, both spellings of t), rejected calls, in-place edits of the '
         'instance lists endogenous / check — each call judged and compared on its own, the other instances and the class lists '
@@ -177,8 +181,8 @@ def gen_cond(rng, depth, ctx):
 
 def gen_prog(rng):
     p = Prog()
-    L = rng.choice([0, 1, 1, 1, 2, 2, 3])
-    Ld = rng.choice([0, 0, 0, 1, 1, 2, 3])
+    L = rng.choice([0, 1, 1, 1, 2, 2, 3, 3, 5, 11])          # incl. two-digit lags / leads
+    Ld = rng.choice([0, 0, 0, 1, 1, 2, 3, 4, 10])
     neq = rng.choice([1, 2, 2, 3])
     lhs_vars = rng.sample(ENDO, neq)
     nvars = lhs_vars + rng.sample(EXO, rng.randint(1, 3))
@@ -193,7 +197,7 @@ def gen_prog(rng):
             # the deepest lag / furthest lead of the whole script sits on a parameter or an error term ONLY
             nm, kind = rng.choice([('a', 'p'), ('b', 'p'), ('e', 'e')])
             kk = -(L + 1) if rng.random() < 0.5 else Ld + 1
-            if abs(kk) <= 3:
+            if abs(kk) <= 12:
                 ctx['reads'].append([nm, kk])
                 rhs = '%s + %s' % (rhs, _term(nm, kk, kind, style))
         u = rng.random()
@@ -365,6 +369,42 @@ def cases_for_program(rng, p, tier, heavy=True):
                     so['failures'] = 'raise'
                 h['steps'].append({'op': 'solve_t', 'on': on, 't': t, 'opts': so})
             cases.append(h)
+        # (b'') a linker over two instances of the class: BaseLinker.solve_t at every t, both spellings
+        if heavy and n in lens[:2]:
+            dataB = gen_data(rng, names, n, wild)
+            for t in range(-n, n):
+                c = base_case(p, n, data, 'linker', t, max_iter=rng.choice([1, 2, 3]), failures=rng.choice(['raise', 'ignore']),
+                              errors=rng.choice(['raise', 'skip', 'ignore', 'replace']), catch_first_error=rng.random() < 0.5)
+                c['dataB'] = dataB
+                c['sel'] = rng.choice([None, None, ['a'], ['b'], ['a', 'b'], ['b', 'a']])
+                u = rng.random()
+                if u < 0.1:
+                    c['opts']['min_iter'] = c['opts']['max_iter'] + 1
+                elif u < 0.2:
+                    c['opts']['offset'] = rng.choice([-1, 1])       # accepted and ignored by the linker (C08)
+                cases.append(c)
+        # (b''') the LABEL entry points on every supported span type: solve_period(label) at every position and for a label
+        # that is not in the span, solve(start=, end=) by labels — list / tuple / range / NumPy array / pandas Index
+        if heavy and n == lens[1]:
+            for kind in rng.sample(['list', 'tuple', 'range', 'array', 'index'], 2):
+                base = rng.choice([0, 1, 1990, -3])
+                labels = list(range(base, base + n))
+                if kind != 'range' and rng.random() < 0.5:
+                    labels = rng.sample(range(base, base + 3 * n), n)      # distinct, unordered
+                for i in range(n):
+                    c = base_case(p, n, data, 'solve_period', i, max_iter=rng.choice([1, 2, 3]), failures=rng.choice(['raise', 'ignore']),
+                                  errors=rng.choice(['raise', 'skip', 'ignore', 'replace']), catch_first_error=rng.random() < 0.6)
+                    c['span_kind'], c['labels'], c['label'] = kind, labels, None
+                    if rng.random() < 0.2:
+                        c['opts']['offset'] = rng.choice([-1, 1])
+                    cases.append(c)
+                c = base_case(p, n, data, 'solve_period', 0, max_iter=2)
+                c['span_kind'], c['labels'], c['label'] = kind, labels, min(labels) - 7
+                cases.append(c)
+                for a_, b_ in [(None, None)] + [(rng.choice([None] + list(range(n))), rng.choice([None] + list(range(n)))) for _ in range(3)]:
+                    c = base_case(p, n, data, 'solve', 0, max_iter=rng.choice([1, 2]), failures='ignore', errors=rng.choice(['raise', 'skip', 'ignore']))
+                    c['start'], c['end'], c['span_kind'], c['labels'] = a_, b_, kind, labels
+                    cases.append(c)
         # (c) solve() for every start / end choice
         choices = [None] + list(range(n))
         pairs = list(itertools.product(choices, choices))
@@ -373,8 +413,10 @@ def cases_for_program(rng, p, tier, heavy=True):
         elif not heavy:
             pairs = [(None, None), (0, None), (None, n - 1)]
         for a, b in pairs:
-            c = base_case(p, n, data, 'solve', 0, max_iter=rng.choice([1, 2, 4]), failures='ignore',
-                          errors=rng.choice(['raise', 'skip', 'ignore']), catch_first_error=rng.random() < 0.5)
+            c = base_case(p, n, data, 'solve', 0, max_iter=rng.choice([1, 2, 4]), failures=rng.choice(['ignore', 'ignore', 'ignore', 'raise']),
+                          errors=rng.choice(['raise', 'skip', 'ignore', 'replace']), catch_first_error=rng.random() < 0.5)
+            if rng.random() < 0.25:
+                c['opts']['min_iter'] = rng.randint(1, c['opts']['max_iter'])
             c['start'], c['end'] = a, b
             if heavy and rng.random() < 0.15:
                 c['opts']['offset'] = rng.choice([-1, 1])
@@ -386,7 +428,8 @@ def cases_for_program(rng, p, tier, heavy=True):
         # (d) the Fortran engine (frame / rejection / feasibility clauses; conditionals are not Fortran)
         if heavy and n == lens[0] and ' if ' not in '\n'.join(p.lines):
             for t in range(-n, n):
-                c = base_case(p, n, data, 'solve_t', t, max_iter=rng.choice([1, 2, 3]), failures='ignore', errors=rng.choice(['raise', 'raise', 'skip']))
+                c = base_case(p, n, data, 'solve_t', t, max_iter=rng.choice([1, 2, 3]), failures='ignore',
+                              errors=rng.choice(['raise', 'raise', 'skip', 'ignore', 'replace']))
                 c['engine'] = 'fortran'
                 cases.append(c)
                 pp = t if t >= 0 else t + n
@@ -412,7 +455,7 @@ def cases_for_program(rng, p, tier, heavy=True):
                     if c2 is not None:
                         cases.append(c2)
             for a, b in [(None, None), (0, None), (None, n - 1)]:
-                c = base_case(p, n, data, 'solve', 0, max_iter=2, failures='ignore', errors='raise')
+                c = base_case(p, n, data, 'solve', 0, max_iter=2, failures='ignore', errors=rng.choice(['raise', 'raise', 'skip', 'ignore', 'replace']))
                 c['start'], c['end'], c['engine'] = a, b, 'fortran'
                 if a is None and b is None and rng.random() < 0.3:
                     c = with_instance_override(rng, c, L, Ld, n) or c
@@ -535,7 +578,7 @@ def fixed_cases():
 
 def gen(rng, tier):
     cases = fixed_cases()
-    nprog = 36 if tier == 'quick' else 170
+    nprog = 26 if tier == 'quick' else 120
     for _ in range(nprog):
         cases += cases_for_program(rng, gen_prog(rng), tier)
     if tier == 'thorough':
@@ -608,6 +651,30 @@ def impl_fortran(case):
             'log': [], 'events': [], 'passes': [], 'npasses': 0, 'pass_logs_tail': []}
 
 
+SPAN_KIND_ID = {'list': 0, 'tuple': 0, 'range': 0, 'array': 1, 'index': 2}     # Solver/SolveAllSpan.spankind: SpList / SpArray / SpIndex
+
+
+def make_span(case):
+    """the span object of the case: by default the list ['p0', 'p1', ...]; with case['span_kind'] a list / tuple / range /
+    NumPy array / pandas Index over the integer labels case['labels']"""
+    n = case['n']
+    kind = case.get('span_kind')
+    if not kind:
+        return ['p%d' % i for i in range(n)]
+    labels = case['labels']
+    if kind == 'list':
+        return list(labels)
+    if kind == 'tuple':
+        return tuple(labels)
+    if kind == 'range':
+        return range(labels[0], labels[0] + n)
+    if kind == 'array':
+        import numpy as np
+        return np.array(labels)
+    import pandas as pd
+    return pd.Index(labels)
+
+
 def impl(case):
     import warnings
     import numpy as np
@@ -626,14 +693,15 @@ def impl(case):
     except em.Unsupported as e:      # outside the translated fragment: the real run is still recorded and judged, K is skipped
         prog, untranslatable = None, str(e)[:60]
     n = case['n']
-    span = ['p%d' % i for i in range(n)]
+    span = make_span(case)
     Probe = em.make_probe(Model, names)
 
-    def new_instance():
+    def new_instance(data=None):
+        data = data if data is not None else case['data']
         mi = Probe(span)
         for nm in names:
-            if nm in case['data']:
-                mi.__dict__['_' + nm][:] = [lib.unhex(x) for x in case['data'][nm]]
+            if nm in data:
+                mi.__dict__['_' + nm][:] = [lib.unhex(x) for x in data[nm]]
         mi.__dict__['_status'][:] = case['status0']
         mi.__dict__['_iterations'][:] = case['iters0']
         if case.get('inst_lags') is not None:
@@ -697,6 +765,49 @@ def impl(case):
             ob['class_lists'] = [list(Model.ENDOGENOUS), list(Model.CHECK)]
             steps.append(ob)
         return {'history': steps, 'names': names}
+    if case['entry'] == 'linker':
+        # a linker over two instances of the parser-built class (keys 'a', 'b'), BaseLinker.solve_t on the real code
+        subs = {'a': new_instance(case['data']), 'b': new_instance(case['dataB'])}
+        Lk = fsic.BaseLinker({k: v[0] for k, v in subs.items()})
+
+        def sub_state(mi):
+            return (em.snapshot(mi, names), [str(x) for x in np.asarray(mi.__dict__['_status'])],
+                    [int(x) for x in np.asarray(mi.__dict__['_iterations'])])
+        before_ = {k: sub_state(v[0]) for k, v in subs.items()}
+        core0 = ([str(x) for x in np.asarray(Lk.status)], [int(x) for x in np.asarray(Lk.iterations)])
+        o = case['opts']
+        try:
+            with warnings.catch_warnings():
+                warnings.simplefilter('ignore')      # the linker never turns warnings into errors; keep the workers' stderr quiet
+                out = ['ret', [bool(Lk.solve_t(case['t'], submodels=case['sel'], min_iter=o['min_iter'], max_iter=o['max_iter'],
+                                               tol=lib.unhex(o['tol']), offset=o['offset'], failures=o['failures'], errors=o['errors'],
+                                               catch_first_error=o['catch_first_error']))]]
+        except Exception as e:
+            c = e.__cause__
+            out = ['raise', type(e).__name__, type(c).__name__ if c is not None else None]
+        idx = {nm: i for i, nm in enumerate(names)}
+        idx.update({'status': -1, 'iterations': -2})
+        table_all, npass, obs_subs = [], 0, {}
+        needs_table = prog is not None and em.uses_table(prog)
+        for k, (mi, sti) in subs.items():
+            plogs = []
+            for rec in sti['passes']:
+                npass += 1
+                if needs_table and npass <= MAX_PASSES_TABLE:
+                    for e in em.mirror_table(prog, rec['t'], rec['before']):
+                        if e not in table_all:
+                            table_all.append(e)
+                plogs.append({'t': rec['t'], 'log': [[a[0], idx[a[1]], a[2]] for a in rec['log']]})
+            a_ = sub_state(mi)
+            obs_subs[k] = {'before': before_[k][0], 'status0': before_[k][1], 'iters0': before_[k][2],
+                           'after': a_[0], 'status': a_[1], 'iters': a_[2], 'plogs': plogs,
+                           'lags': int(mi.lags), 'leads': int(mi.leads),
+                           'endo': [idx[x] for x in mi.endogenous], 'check': [idx[x] for x in mi.check]}
+        return {'engine': 'linker', 'names': names, 'prog': prog, 'untranslatable': untranslatable, 'out': out,
+                'lags': int(Lk.lags), 'leads': int(Lk.leads), 'class_lags': int(Model.LAGS), 'class_leads': int(Model.LEADS),
+                'subs': obs_subs, 'core': {'status0': core0[0], 'iters0': core0[1], 'status': [str(x) for x in np.asarray(Lk.status)],
+                                           'iters': [int(x) for x in np.asarray(Lk.iterations)]},
+                'npasses': npass, 'table_all': table_all, 'table_complete': (not needs_table) or npass <= MAX_PASSES_TABLE}
     m, st = new_instance()
     before = em.snapshot(m, names)
     o = case['opts']
@@ -710,12 +821,17 @@ def impl(case):
             out = ['ret', None]
         elif case['entry'] == 'solve_t':
             out = ['ret', [bool(m.solve_t(case['t'], **kw))]]
+        elif case['entry'] == 'solve_period':
+            lab = case['label'] if case.get('label') is not None else span[case['t']]
+            lab = lab.item() if hasattr(lab, 'item') else lab
+            out = ['ret', [bool(m.solve_period(lab, **kw))]]
         else:
             skw = dict(kw)
             if case['start'] is not None:
                 skw['start'] = span[case['start']]
             if case['end'] is not None:
                 skw['end'] = span[case['end']]
+            skw = {k: (v.item() if k in ('start', 'end') and hasattr(v, 'item') else v) for k, v in skw.items()}
             labels, indexes, solved = m.solve(**skw)
             out = ['ret', [bool(x) for x in solved], [int(i) for i in indexes], [str(x) for x in labels]]
     except Exception as e:
@@ -852,21 +968,77 @@ def k_items(case, obs):
             _c_state(obs['before'], case['status0'], case['iters0'], []),
             _c_state(obs['after'], obs['status'], obs['iters'], obs['events']), _c_out(obs['out'])))
     low = obs['lags'] < obs['class_lags'] or obs['leads'] < obs['class_leads']      # user-lowered instance attribute: no hypothesis check
+    if case['entry'] == 'solve_period' and obs['table_complete']:
+        # the label entry point on the span type of the case: SolveAll.solve_period_M with SolveAllSpan.locate_span
+        lab = case['label'] if case.get('label') is not None else case['labels'][case['t']]
+        out = obs['out']
+        c_out = '(Ret %s)' % lib.cbool(out[1][0]) if out[0] == 'ret' else _c_out(out)
+        items = ['(K2 (K1 %s))' % it for it in items]
+        items.append('(KSP (mkSP %s %s %s %s %d%%nat %s %s %s %s %s))' % (
+            em.c_table(table), prog, _c_desc(obs), sc.c_opts(case['opts']), SPAN_KIND_ID[case['span_kind']],
+            lib.clist(lib.cZ(x) for x in case['labels']), lib.cZ(lab),
+            _c_state(obs['before'], case['status0'], case['iters0'], []),
+            _c_state(obs['after'], obs['status'], obs['iters'], obs['events']), c_out))
+        return items
     items = [('(KL (K1 %s))' if low else '(K2 (K1 %s))') % it for it in items]
     if case['entry'] == 'solve' and obs['table_complete']:
         # the real entry point: SolveAll.solve_M (min/max_iter test, label lookup, iter_periods, the loop) — labels 'p<i>' are i
         out = obs['out']
         if out[0] == 'ret':
             c_out = '(Ret (%s, %s, %s))' % (lib.clist(lib.cbool(b) for b in out[1]), lib.clist(lib.cZ(i) for i in out[2]),
-                                            lib.clist(lib.cZ(int(x[1:])) for x in out[3]))
+                                            lib.clist(lib.cZ(int(x) if case.get('span_kind') else int(x[1:])) for x in out[3]))
         else:
             c_out = _c_out(out)
         opt = lambda x: 'None' if x is None else '(Some %s)' % lib.cZ(x)  # noqa: E731
+        if case.get('span_kind'):
+            # solve() on a list / tuple / range / NumPy-array / pandas-Index span with integer labels
+            labs = case['labels']
+            if out[0] == 'ret':
+                c_out = '(Ret (%s, %s, %s))' % (lib.clist(lib.cbool(b) for b in out[1]), lib.clist(lib.cZ(i) for i in out[2]),
+                                                lib.clist(lib.cZ(int(x)) for x in out[3]))
+            optl = lambda i: 'None' if i is None else '(Some %s)' % lib.cZ(labs[i])  # noqa: E731
+            e = '(mkE %s %s %s %s %d%%nat %s %s %s %s %s)' % (
+                em.c_table(table), prog, _c_desc(obs), sc.c_opts(case['opts']), n, optl(case['start']), optl(case['end']),
+                _c_state(obs['before'], case['status0'], case['iters0'], []),
+                _c_state(obs['after'], obs['status'], obs['iters'], obs['events']), c_out)
+            items.append('(KEK (mkEK %d%%nat %s %s))' % (SPAN_KIND_ID[case['span_kind']], lib.clist(lib.cZ(x) for x in labs), e))
+            return items
         items.append(('(KEL (mkE %s %s %s %s %d%%nat %s %s %s %s %s))' if low else '(KE (mkE %s %s %s %s %d%%nat %s %s %s %s %s))') % (
             em.c_table(table), prog, _c_desc(obs), sc.c_opts(case['opts']), n, opt(case['start']), opt(case['end']),
             _c_state(obs['before'], case['status0'], case['iters0'], []),
             _c_state(obs['after'], obs['status'], obs['iters'], obs['events']), c_out))
     return items
+
+
+SUBKEY = {'a': 0, 'b': 1}
+
+
+def k_item_linker(case, obs):
+    """Linker.linker_solve_t_M with every submodel's generated pass (EvalLinker.lsev) against the real BaseLinker.solve_t"""
+    prog = em.c_prog(obs['prog'])
+
+    def comp(desc, vals, status, iters):
+        return '(Linker.mkComp %s (mkState %s %s %s []))' % (desc, em.c_vals(vals), lib.clist(sc.ST[x] for x in status), lib.clist(lib.cZ(i) for i in iters))
+
+    def state(which):
+        core = comp('(mkDesc [] [] %d%%nat %d%%nat)' % (obs['lags'], obs['leads']), [],
+                    obs['core']['status0' if which == 0 else 'status'], obs['core']['iters0' if which == 0 else 'iters'])
+        subs = []
+        for k in ('a', 'b'):
+            sb = obs['subs'][k]
+            desc = '(mkDesc %s %s %d%%nat %d%%nat)' % (lib.clist('%d%%nat' % i for i in sb['check']), lib.clist('%d%%nat' % i for i in sb['endo']), sb['lags'], sb['leads'])
+            subs.append('(%d%%nat, %s)' % (SUBKEY[k], comp(desc, sb['before' if which == 0 else 'after'], sb['status0' if which == 0 else 'status'],
+                                                          sb['iters0' if which == 0 else 'iters'])))
+        return '(Linker.mkL %s %s [])' % (core, lib.clist(subs))
+    out = obs['out']
+    if out[0] == 'ret':
+        c_out = '(Linker.LRet %s)' % lib.cbool(out[1][0])
+    else:
+        c_out = '(Linker.LRaise (Linker.LExn %s))' % sc.EXN.get(out[1], 'OtherError')
+    sel = 'None' if case['sel'] is None else '(Some %s)' % lib.clist('%d%%nat' % SUBKEY[k] for k in case['sel'])
+    return '(KLk (mkLK %s %s %s %s %s %s %s %s))' % (
+        em.c_table(obs['table_all']), lib.clist('(%d%%nat, %s)' % (j, prog) for j in (0, 1)), sel, sc.c_opts(case['opts']),
+        lib.cZ(case['t']), state(0), state(1), c_out)
 
 
 def fortran_upfront(case, obs):
@@ -888,7 +1060,7 @@ def fortran_upfront(case, obs):
     chk = [B[i][q] if (o['offset'] != 0 and i in obs['endo']) else B[i][p] for i in obs['check']]
     if o['errors'] == 'raise' and any(_nonfinite(x) for x in chk):
         return True
-    return not obs['class_lags'] <= p < n - obs['class_leads']
+    return not max(obs['lags'], obs['class_lags']) <= p < n - max(obs['leads'], obs['class_leads'])
 
 
 def k_item_fortran(case, obs):
@@ -906,6 +1078,15 @@ def k_item_fortran(case, obs):
         _c_state(obs['after'], obs['status'], obs['iters'], []), c_out)
 
 
+def wrap5(it):
+    """lift a K item to the top-level sum type EvalK3.kcase5"""
+    if it.startswith('(KSP ') or it.startswith('(KEK '):
+        return it
+    if it.startswith('(KLk ') or it.startswith('(K3 '):
+        return '(K4 %s)' % it
+    return '(K4 (K3 %s))' % it
+
+
 def correspond(cases, obs, tag, tier):
     items, owner, bad = [], [], []
     for i, (c, o) in enumerate(zip(cases, obs)):
@@ -920,13 +1101,18 @@ def correspond(cases, obs, tag, tier):
                 if p_ is None or not o['class_lags'] <= p_ < n_ - o['class_leads']:        # rejected by the index tests: no equations needed
                     fm = '(FSolve.mkFmod %s %s %s)' % (lib.cZ(o['class_lags']), lib.cZ(o['class_leads']), lib.clist(lib.cZ(i + 1) for i in o['endo']))
                     c_out = '(Ret tt)' if o['out'][0] == 'ret' else '(Raise %s)' % sc.EXN.get(o['out'][1], 'OtherError')
-                    items.append('(KG (mkG %s %s %s %s %s))' % (
+                    items.append('(K4 (K3 (KG (mkG %s %s %s %s %s))))' % (
                         fm, lib.cZ(t_), _c_state(o['before'], c['status0'], c['iters0'], []),
                         _c_state(o['after'], o['status'], o['iters'], []), c_out))
                     owner.append(i)
                 continue
             if fortran_upfront(c, o):
-                items.append('(K2 %s)' % k_item_fortran(c, o))
+                items.append(wrap5('(K2 %s)' % k_item_fortran(c, o)))
+                owner.append(i)
+            continue
+        if o.get('engine') == 'linker':
+            if o.get('prog') is not None and o['table_complete']:
+                items.append(wrap5(k_item_linker(c, o)))
                 owner.append(i)
             continue
         if c['entry'] == 'history':
@@ -934,7 +1120,7 @@ def correspond(cases, obs, tag, tier):
                 if so_.get('prog') is None or guard(sc_, so_):
                     continue
                 for it in (k_items(sc_, so_) or []):
-                    items.append(it)
+                    items.append(wrap5(it))
                     owner.append(i)
             continue
         if o.get('prog') is None:        # outside the translated fragment: oracle only
@@ -947,15 +1133,20 @@ def correspond(cases, obs, tag, tier):
             bad.append(i)          # an access with a non-integer index: outside the model altogether
             continue
         for it in its:
-            items.append(it)
+            items.append(wrap5(it))
             owner.append(i)
-    b, errs = lib.run_coq_cases(tag, PREAMBLE2, items, 'bad_indices check_kcase3 0%nat cs', shard=250)
+    b, errs = lib.run_coq_cases(tag, PREAMBLE2, items, 'bad_indices check_kcase5 0%nat cs', shard=250)
     return sorted(set(bad) | {owner[j] for j in b}), errs
 
 
 def explain(case, obs):
     if obs.get('skip'):
         return 'skipped: ' + obs['skip']
+    if case['entry'] == 'linker':
+        if obs.get('prog') is None:
+            return 'linker over submodels whose generated code is outside the translated fragment: oracle only'
+        body = k_item_linker(case, obs)[5:-1]
+        return lib.coq_eval('explain_C04', PREAMBLE2, 'let c := %s in (F_linker_solve_t (lk_tab c) (lk_progs c) (lk_sel c) (lk_opts c) (lk_t c) (lk_state c))' % body)[-2500:]
     if case['entry'] == 'history':
         return '\n'.join('step %d: %s' % (j, explain(sc_, so_)[-800:]) for j, (sc_, so_) in enumerate(history_steps(case, obs)))
     if obs.get('engine') == 'fortran' and case['entry'] == 'evaluate':
@@ -970,6 +1161,9 @@ def explain(case, obs):
     its = k_items(case, obs) or []
     out = []
     for it in its[-2:]:
+        if it.startswith('(KSP ') or it.startswith('(KEK '):
+            out.append('label entry point on a %s span: model SolveAll.solve_period_M / solve_M with SolveAllSpan.locate_span (see EvalK3.check_spcase / check_ekcase)' % case.get('span_kind'))
+            continue
         if it.startswith('(K2 (K1 ') or it.startswith('(KL (K1 '):
             it = it[8:-2]
         if it.startswith('(KEL '):
@@ -997,18 +1191,87 @@ def _nonfinite(h):
 
 def guard(case, obs):
     """guard class of kept finding #3 (offset copy before the pre-existing non-finite rejection): K is silent there"""
-    if obs.get('skip') or case['entry'] == 'evaluate':
+    if obs.get('skip') or case['entry'] in ('evaluate', 'linker'):
         return False
     if case['entry'] == 'history':
         return False                 # decided per step inside correspond()
-    if obs.get('engine') == 'fortran' and case['entry'] == 'solve_t' and case['opts']['offset'] != 0:
-        # second kept finding: FortranEngine.solve_t copies the offset period before the compiled feasibility test
-        n = case['n']
-        p = _pos(case['t'], n)
-        if 0 <= p < n and 0 <= p + case['opts']['offset'] < n and not obs['class_lags'] <= p < n - obs['class_leads'] and obs['out'][0] == 'raise':
-            return True
     return case['opts']['offset'] != 0 and case['opts']['errors'] == 'raise' and obs['out'][0] == 'raise' \
         and obs['out'][1] == 'SolutionError' and not obs['events']
+
+
+def _oracle_linker(case, obs):
+    """C04's clauses for BaseLinker.solve_t over parser-built submodels: rejected up front (min/max_iter, infeasible period) ->
+    nothing at all changes; otherwise every selected submodel changes only the cells its equations assign for period t and
+    status / iterations at t, unselected submodels change nothing, every read / write of a pass is served in span at t +- k"""
+    fails = []
+
+    def bad(sig, what):
+        fails.append({'sig': 'C04|linker|' + sig, 'what': what})
+    n, o, eqs, t = case['n'], case['opts'], case['eqs'], case['t']
+    names = obs['names']
+    idx = {nm: i for i, nm in enumerate(names)}
+    L, Ld = script_lags_leads(eqs)
+    if (obs['lags'], obs['leads']) != (L, Ld):
+        bad('lags-leads', 'linker.lags/leads = %s but the submodels\' equations need %s' % ((obs['lags'], obs['leads']), (L, Ld)))
+    lhs, reads = {}, {}
+    for e in eqs:
+        lhs.setdefault(idx[e['lhs'][0]], set()).add(e['lhs'][1])
+        for nm, k in e['reads']:
+            reads.setdefault(idx[nm], set()).add(k)
+    p = _pos(t, n)
+    out = obs['out']
+    sel = case['sel'] if case['sel'] is not None else ['a', 'b']
+    delta = {}
+    for k, sb in obs['subs'].items():
+        ch = {(i, q) for i in range(len(names)) for q in range(n) if sb['before'][i][q] != sb['after'][i][q]}
+        stc = {q for q in range(n) if sb['status'][q] != sb['status0'][q] or sb['iters'][q] != sb['iters0'][q]}
+        delta[k] = (ch, stc)
+    core_ch = {q for q in range(n) if obs['core']['status'][q] != obs['core']['status0'][q] or obs['core']['iters'][q] != obs['core']['iters0'][q]}
+    untouched = not core_ch and all(not ch and not stc for ch, stc in delta.values()) and obs['npasses'] == 0
+    if o['min_iter'] > o['max_iter']:
+        if out[:2] != ['raise', 'ValueError'] or not untouched:
+            bad('min>max', 'min_iter > max_iter must raise ValueError and change nothing on the linker and its submodels: got %s, untouched=%s' % (out[:2], untouched))
+        return fails
+    if not L <= p < n - Ld:
+        if out[:2] != ['raise', 'IndexError'] or not untouched:
+            bad('infeasible-period-served', 'linker.solve_t(%d) on a %d-period span with lags=%d leads=%d must raise IndexError and change nothing: got %s after %d pass(es), untouched=%s'
+                % (t, n, L, Ld, out[:2], obs['npasses'], untouched))
+        return fails
+    if out[:2] == ['raise', 'IndexError']:
+        bad('feasible-period-rejected', 'linker.solve_t(%d) raised IndexError although the period is feasible' % t)
+    if core_ch - {p}:
+        bad('status-outside-t', 'the linker\'s own status/iterations changed at %s while solving position %d' % (sorted(core_ch - {p}), p))
+    for k, sb in obs['subs'].items():
+        ch, stc = delta[k]
+        if k not in sel:
+            if ch or stc or sb['plogs']:
+                bad('unselected-submodel-touched', 'submodel %r is not among submodels=%s but changed (cells %s, status at %s, %d pass(es))'
+                    % (k, sel, sorted(ch)[:3], sorted(stc), len(sb['plogs'])))
+            continue
+        for (i, q) in sorted(ch):
+            if i not in lhs:
+                bad('unassigned-row-changed', 'submodel %r: cell %s[%d] changed although no equation assigns %s' % (k, names[i], q, names[i]))
+                break
+        extra = sorted(ch - {(i, p + kk) for i, ks in lhs.items() for kk in ks})
+        if extra:
+            bad('cell-outside-frame', 'submodel %r: linker.solve_t(%d) changed %s[%d], which no equation assigns for this period' % (k, t, names[extra[0][0]], extra[0][1]))
+        if stc - {p}:
+            bad('status-outside-t', 'submodel %r: status/iterations changed at %s while solving position %d' % (k, sorted(stc - {p}), p))
+        for r in sb['plogs']:
+            for kind, x, i in r['log']:
+                if not isinstance(i, int) or x < 0:
+                    bad('pass-access-shape', 'submodel %r: unexpected access %s' % (k, [kind, x, i]))
+                    break
+                srv = i if i >= 0 else i + n
+                if not 0 <= srv < n or srv - p != i - r['t']:
+                    bad('read-wrapped' if kind == 'R' else 'write-wrapped',
+                        'submodel %r: %s of %s at requested index %d while the linker solves t=%d (position %d of %d) is not served at the same distance inside the span'
+                        % (k, 'read' if kind == 'R' else 'write', names[x], i, r['t'], p, n))
+                    break
+                if (i - r['t']) not in (reads.get(x, set()) if kind == 'R' else lhs.get(x, set())):
+                    bad('access-not-a-term', 'submodel %r: %s of %s[t%+d]: no such term in the equations' % (k, 'read' if kind == 'R' else 'write', names[x], i - r['t']))
+                    break
+    return fails
 
 
 def _oracle(case, obs):
@@ -1023,6 +1286,16 @@ def _oracle(case, obs):
         if obs['skip'].startswith('build:'):
             bad('build|' + obs['skip'][6:], 'a valid C01-grammar script was not accepted: %s' % obs['skip'])
         return fails
+    if case['entry'] == 'linker':
+        return _oracle_linker(case, obs)
+    if case['entry'] == 'solve_period':
+        if case.get('label') is not None:         # a label that is not in the span
+            B_, A_ = obs['before'], obs['after']
+            same = B_ == A_ and obs['status'] == case['status0'] and obs['iters'] == case['iters0'] and not obs['events']
+            if obs['out'][:2] != ['raise', 'KeyError'] or not same:
+                bad('solve_period|unknown-label', 'solve_period(<label not in the span>) must raise KeyError and change nothing: got %s, unchanged=%s' % (obs['out'][:2], same))
+            return fails
+        return _oracle(dict(case, entry='solve_t'), obs)       # the label of position t: judged as solve_t(t)
     if case['entry'] == 'history':
         fails += history_list_oracle(case, obs)
         seen = set()
@@ -1037,27 +1310,24 @@ def _oracle(case, obs):
     idx = {nm: i for i, nm in enumerate(names)}
     L, Ld = script_lags_leads(eqs)
     L, Ld = max(L, case.get('min_lags', 0)), max(Ld, case.get('min_leads', 0))
-    if (obs['class_lags'], obs['class_leads']) != (L, Ld):
+    if obs['class_lags'] < L or obs['class_leads'] < Ld:
         bad('lags-leads', 'LAGS/LEADS = %s but the equations need %s' % ((obs['class_lags'], obs['class_leads']), (L, Ld)))
-    Lp, Ldp = L, Ld                                    # what the equations need
+    L, Ld = max(L, obs['class_lags']), max(Ld, obs['class_leads'])     # a larger, conservative LAGS / LEADS violates nothing here
+    Lp, Ldp = L, Ld                                    # what the class demands (at least what the equations need)
     Li = case['inst_lags'] if case.get('inst_lags') is not None else L
     Ldi = case['inst_leads'] if case.get('inst_leads') is not None else Ld
     if (obs['lags'], obs['leads']) != (Li, Ldi):
         bad('lags-leads', 'model.lags/leads = %s, expected %s' % ((obs['lags'], obs['leads']), (Li, Ldi)))
     fortran_ = obs.get('engine') == 'fortran'
-    # the periods the property wants rejected are those without room for max(instance value, what the equations need);
-    # the compiled Fortran code only knows the class-level values, the Python engine only the instance-level ones
-    if fortran_:
-        L, Ld = Lp, Ldp
-    else:
-        L, Ld = max(Li, Lp), max(Ldi, Ldp)
-    lowered = (Li < Lp or Ldi < Ldp) and not fortran_
-    if lowered:
-        # the user assigned model.lags / model.leads BELOW what the equations need: by that assignment "the model's lags" the
-        # property speaks of are redefined (the anchors name the instance attributes as what bounds the range), fsic honours
-        # it, and the property states nothing more.  The oracle is silent here; K stays active (the model mirrors the
-        # behaviour, without the hypothesis prog_lags <= lags d that every positive theorem carries).
-        return fails
+    # the periods the property wants rejected are those without room for max(instance value, what the class demands): the
+    # Python engine and (since 1354783) the Fortran wrapper test the instance attributes, the compiled code the class-level ones
+    L, Ld = max(Li, Lp), max(Ldi, Ldp)
+    # the user assigned model.lags / model.leads BELOW what the equations need: by that assignment "the model's lags" the
+    # property speaks of are redefined (the anchors name the instance attributes as what bounds the range), fsic honours it,
+    # and the property states nothing more about rejections or reads there.  Only the frame clauses that hold regardless are
+    # judged (unassigned rows, status / iterations only at the periods solved); K stays active (the model mirrors the
+    # behaviour, without the hypothesis prog_lags <= lags d that every positive theorem carries).
+    lowered = Li < Lp or Ldi < Ldp
     lhs = {}
     reads = {}
     for e in eqs:
@@ -1076,8 +1346,18 @@ def _oracle(case, obs):
         if i not in lhs and i not in seeded_rows:
             bad('unassigned-row-changed', 'cell %s[%d] changed although no equation assigns %s' % (names[i], q, names[i]))
             break
+    if lowered:
+        if case['entry'] == 'solve_t' and st_changed - {_pos(case['t'], n)}:
+            bad('status-outside-t', 'status/iterations changed at position(s) %s while solving position %d' % (sorted(st_changed - {_pos(case['t'], n)}), _pos(case['t'], n)))
+        if case['entry'] == 'solve':
+            a_ = case['start'] if case['start'] is not None else Li
+            b_ = case['end'] if case['end'] is not None else n - 1 - Ldi
+            if st_changed - set(range(a_, b_ + 1)):
+                bad('status-outside-t', 'solve() changed status/iterations at %s, outside the periods it solves' % sorted(st_changed - set(range(a_, b_ + 1))))
+        return fails
     if case['entry'] == 'evaluate':
         if obs.get('engine') == 'fortran':
+            L, Ld = Lp, Ldp          # _evaluate has no wrapper guard: the compiled index tests know the class-level values
             # FortranEngine._evaluate: explicit index tests — a period outside the span or without room for the lags /
             # leads is answered with IndexError and nothing changes; a feasible one writes only the assigned cells
             t = case['t']
@@ -1132,51 +1412,45 @@ def _oracle(case, obs):
         if fortran:      # no hook events to go by: a raise that recorded no status at t is a rejection
             rejected_upfront = out[0] == 'raise' and out[1] != 'NonConvergenceError' and p not in st_changed
         feasible = L <= p < n - Ld
+        # ---- the up-front rejections.  The property names them (bad min/max_iter, infeasible period, out-of-span offset,
+        # pre-existing non-finite check values under errors='raise') but fixes NO ORDER among them: when several apply, any
+        # of their exceptions is a correct rejection; what it demands is a rejection that changes nothing.
+        off_in = o['offset'] != 0 and 0 <= p + o['offset'] < n
+        reasons = {}
         if o['min_iter'] > o['max_iter']:
-            if out[:2] != ['raise', 'ValueError'] or not unchanged or obs['events']:
-                bad('min>max', 'min_iter > max_iter must raise ValueError and change nothing: got %s, unchanged=%s' % (out, unchanged))
-            return fails
+            reasons['min>max'] = 'ValueError'
         if not feasible:
-            off_in = o['offset'] != 0 and 0 <= p + o['offset'] < n
-            ok_reject = out[:2] == ['raise', 'IndexError'] or (fortran and out[:2] == ['raise', 'FortranEngineError'])
-            if fortran and out[:2] == ['raise', 'SolutionError'] and o['errors'] == 'raise':
-                # the Fortran wrapper copies the offset period and tests for pre-existing non-finite values BEFORE the
-                # compiled code tests feasibility: still a rejection (no evaluation), though with another exception
-                seen = [B[i][p + o['offset']] if (off_in and i in obs['endo']) else B[i][p] for i in obs['check']]
-                if any(_nonfinite(x) for x in seen):
-                    ok_reject = True
-            if not ok_reject or obs['events']:
-                bad('infeasible-period-served', 'solve_t(%d) on a %d-period span with lags=%d leads=%d must be rejected with IndexError; got %s after %d evaluation pass(es)'
-                    % (t, n, L, Ld, out, obs['npasses']))
-            if not unchanged:
+            reasons['infeasible-period'] = 'IndexError'
+        if o['offset'] != 0 and not off_in:
+            reasons['offset-out-of-span'] = 'IndexError'
+        seen = [B[i][p + o['offset']] if (off_in and i in obs['endo']) else B[i][p] for i in obs['check']]
+        if o['errors'] == 'raise' and any(_nonfinite(x) for x in seen):
+            reasons['preexisting-nonfinite'] = 'SolutionError'
+        if reasons:
+            first = ('infeasible-period-served' if 'infeasible-period' in reasons else sorted(reasons)[0])
+            no_run = not obs['events'] and (not fortran or p not in st_changed)
+            if out[0] != 'raise' or out[1] not in set(reasons.values()) or not no_run:
+                bad(first, 'solve_t(%d, offset=%d) on a %d-period span with lags=%d leads=%d must be rejected up front (%s -> one of %s); got %s after %d evaluation pass(es)'
+                    % (t, o['offset'], n, L, Ld, ', '.join(sorted(reasons)), sorted(set(reasons.values())), out[:2], obs['npasses']))
+            elif not unchanged:
                 only_copy = (not st_changed and off_in and all(i in obs['endo'] and q == p and A[i][q] == B[i][p + o['offset']] for (i, q) in changed))
-                if fortran and only_copy:
-                    bad('fortran|infeasible-after-offset|changed',
-                        'FortranEngine.solve_t(%d, offset=%d) at an infeasible period was rejected (%s) AFTER copying period t+offset into period t'
-                        % (t, o['offset'], out[1]))
-                else:
+                if only_copy and out[1] == 'SolutionError' and set(reasons) == {'preexisting-nonfinite'}:
+                    bad('preexisting-nonfinite-after-offset|changed',
+                        'solve_t(t, offset=k) rejected for pre-existing non-finite values AFTER copying period t+k into period t (values at t overwritten)')
+                elif 'infeasible-period' in reasons:
                     bad('infeasible-period-changed', 'solve_t(%d) at an infeasible period changed values or status' % t)
+                else:
+                    bad('rejected-but-changed', 'call rejected up front (%s) but something changed: cells %s, status at %s' % (out[:2], sorted(changed)[:4], sorted(st_changed)))
             check_pass_logs(plogs)
-            return fails
-        if o['offset'] != 0 and not 0 <= p + o['offset'] < n:
-            if out[:2] != ['raise', 'IndexError'] or not unchanged or obs['events']:
-                bad('offset-out-of-span', 'offset outside the span must raise IndexError and change nothing: got %s, unchanged=%s' % (out, unchanged))
             return fails
         if out[:2] == ['raise', 'IndexError']:
             bad('feasible-period-rejected', 'solve_t(%d) on a %d-period span with lags=%d leads=%d (offset %d in span) raised IndexError although the period is feasible'
                 % (t, n, L, Ld, o['offset']))
         if rejected_upfront and not unchanged:
-            if o['offset'] != 0 and (out[1] == 'SolutionError' or (fortran and out[1] == 'FortranEngineError')):
-                bad('preexisting-nonfinite-after-offset|changed',
-                    'solve_t(t, offset=k) rejected for pre-existing non-finite values AFTER copying period t+k into period t (values at t overwritten)')
-            else:
-                bad('rejected-but-changed', 'call rejected up front (%s) but something changed: cells %s, status at %s' % (out, sorted(changed)[:4], sorted(st_changed)))
-        if o['offset'] == 0 and o['errors'] == 'raise' and any(_nonfinite(B[i][p]) for i in obs['check']):
-            if out[:2] != ['raise', 'SolutionError'] or obs['events'] or not unchanged:
-                bad('preexisting-nonfinite', 'pre-existing non-finite check value under errors="raise" must be rejected with nothing changed: got %s' % (out,))
+            bad('rejected-but-changed', 'call rejected up front (%s) but something changed: cells %s, status at %s' % (out[:2], sorted(changed)[:4], sorted(st_changed)))
         allowed = {(i, p + k) for i, ks in lhs.items() for k in ks}
-        if o['offset'] != 0:
-            allowed |= {(i, p) for i in obs['endo']}
+        if o['offset'] != 0 or (fortran and o['errors'] == 'replace'):
+            allowed |= {(i, p) for i in obs['endo']}      # offset copy; the compiled zeroing of non-finite endogenous values of period t
         extra = sorted(changed - allowed)
         if extra:
             bad('cell-outside-frame', 'solve_t(%d) changed %s[%d], which no equation assigns for this period' % (t, names[extra[0][0]], extra[0][1]))
@@ -1209,13 +1483,35 @@ def _oracle(case, obs):
         if infeasible:
             bad('infeasible-period-served', 'solve(start=%s, end=%s) on a %d-period span with lags=%d leads=%d served position %d instead of rejecting it'
                 % (case['start'], case['end'], n, L, Ld, infeasible[0]))
-    elif infeasible and out[1] != 'IndexError' and not (fortran and out[1] == 'FortranEngineError') and not any(q < infeasible[0] for q in want):
-        bad('infeasible-period-served', 'solve() starting at infeasible position %d raised %s, expected IndexError' % (infeasible[0], out[1]))
+    elif infeasible:
+        # a requested range that contains an infeasible period must END IN AN EXCEPTION — never a silently clipped range —,
+        # the periods before the first infeasible one are solved in order, and if none of them raised on its own account the
+        # exception is the rejection of that period (IndexError; SolutionError only for pre-existing non-finite values there)
+        q0 = infeasible[0]
+        if fortran:
+            # no hook events on this engine: the statuses stamped tell how far it got
+            reached = [q for q in want if q < q0 and q in st_changed]
+            stopped_early = len(reached) < len([q for q in want if q < q0])
+        else:
+            evented = []
+            for e in obs['events']:
+                if e[0] == 'before' and e[1] not in evented:
+                    evented.append(e[1])
+            if q0 in evented:
+                bad('infeasible-period-served', 'solve(start=%s, end=%s): the infeasible position %d was solved (hook / evaluation events recorded for it)' % (case['start'], case['end'], q0))
+            if evented != want[:len(evented)]:
+                bad('solve-positions', 'solve(start=%s, end=%s) solved positions %s, expected a prefix of %s' % (case['start'], case['end'], evented, want))
+            stopped_early = len(evented) < len([q for q in want if q < q0]) or (evented and out[1] in ('NonConvergenceError',)) \
+                or (evented and out[1] == 'SolutionError' and obs['status'][evented[-1]] == 'E')
+        rejected_here = out[1] == 'IndexError' or (out[1] == 'SolutionError' and o['errors'] == 'raise' and any(_nonfinite(B[i][q0]) for i in obs['check']))
+        if not stopped_early and not rejected_here:
+            bad('infeasible-period-served', 'solve(start=%s, end=%s) on a %d-period span with lags=%d leads=%d reached the infeasible position %d and raised %s, expected IndexError'
+                % (case['start'], case['end'], n, L, Ld, q0, out[1]))
     elif not infeasible and out[1] == 'IndexError' and (o['offset'] == 0 or all(0 <= q + o['offset'] < n for q in want)):
         bad('feasible-period-rejected', 'solve(start=%s, end=%s) over the feasible positions %s raised IndexError' % (case['start'], case['end'], want))
     visited = [q for q in want if not infeasible or q < infeasible[0]] if infeasible else want
     allowed = {(i, q + k) for q in visited for i, ks in lhs.items() for k in ks}
-    if o['offset'] != 0:
+    if o['offset'] != 0 or (fortran and o['errors'] == 'replace'):
         allowed |= {(i, q) for q in visited for i in obs['endo']}
     extra = sorted(changed - allowed)
     if extra:
@@ -1243,6 +1539,8 @@ def oracle(case, obs):
 def nontrivial(case, obs):
     if obs.get('skip') or obs.get('timeout'):
         return False
+    if case['entry'] == 'linker':
+        return obs['npasses'] >= 1 or obs['out'][0] == 'raise'
     if case['entry'] == 'history':
         return any(nontrivial(sc_, so_) for sc_, so_ in history_steps(case, obs))
     return obs['npasses'] >= 1 or obs['out'][0] == 'raise' or (obs.get('engine') == 'fortran' and obs['before'] != obs['after'])
@@ -1253,6 +1551,12 @@ def bucket(case, obs):
         return 'timeout'
     if obs.get('skip'):
         return 'skip/' + obs['skip'].split(':')[0]
+    if case['entry'] == 'linker':
+        pp = _pos(case['t'], case['n'])
+        return 'linker/%s%s/%s' % ('neg' if case['t'] < 0 else 'pos', '/infeasible' if not obs['lags'] <= pp < case['n'] - obs['leads'] else '',
+                                   obs['out'][1] if obs['out'][0] == 'raise' else 'ret')
+    if case['entry'] == 'solve_period':
+        return 'solve_period/%s/%s' % (case['span_kind'], obs['out'][1] if obs['out'][0] == 'raise' else 'ret')
     if case['entry'] == 'history':
         calls = [so_ for so_ in obs['history'] if so_.get('op') == 'solve_t']
         return 'history/%d calls/%d raised/%d edits' % (len(calls), sum(1 for so_ in calls if so_['out'][0] == 'raise'),
@@ -1260,6 +1564,8 @@ def bucket(case, obs):
     out = obs['out']
     r = out[1] if out[0] == 'raise' else 'ret'
     extra = ''
+    if case.get('span_kind'):
+        extra += '/' + case['span_kind']
     if case['entry'] == 'solve_t':
         p = _pos(case['t'], case['n'])
         extra = '/neg' if case['t'] < 0 else '/pos'
@@ -1273,6 +1579,11 @@ def bucket(case, obs):
 
 
 def shrink_candidates(case):
+    if case['entry'] == 'linker' and case['sel'] is None:
+        for sel in (['a'], ['b']):
+            c = copy.deepcopy(case)
+            c['sel'] = sel
+            yield c
     if case['entry'] == 'history':
         for j in range(len(case['steps'])):
             if len(case['steps']) > 1:
